@@ -41,6 +41,7 @@ func ssaRead(n int, c ssaCase) ssaEvent {
 	ev := ssaEvent{N: n, Dir: "read", G: c.G, D: c.D}
 	ev.Post.Norm()
 	raw := ssax.Concretise(c.D, p, n)
+	dumpDoc("ssa", n, raw)
 	ev.Raw = string(raw)
 	var s *astisub.Subtitles
 	var err error
